@@ -738,6 +738,7 @@ def _violation(res, fn, cfg, opts, solver, p, label, env, detail,
         if r == 'sat':
             candidates.append(_fl(m))
     outcome = 'not reproduced'
+    label_seen = False
     for cand in candidates:
         try:
             was = facades.installed()
@@ -756,6 +757,7 @@ def _violation(res, fn, cfg, opts, solver, p, label, env, detail,
                  'raised %r' % (e,))
         if f is None:
             continue
+        label_seen = True
         if f[0]:
             confirmed = True
             used_env = Bc.env if 'Bc' in dir() else cand
@@ -800,6 +802,14 @@ def _violation(res, fn, cfg, opts, solver, p, label, env, detail,
     if confirmed:
         res.violations.append(entry)
     else:
+        if candidates and not label_seen and not opts.get(
+                'confirm_by_terms') and not opts.get('facts_final'):
+            # the float run of the case never produced this obligation: the
+            # replay cannot speak about it (a defect of the case, reported
+            # as such instead of a silent "not reproduced")
+            res.errors.append(
+                'replay impossible: the float run of the case records no '
+                'obligation labelled %r' % (label,))
         res.inconclusive.append(
             (label, 'counter-example did not reproduce on the float code: %s'
              % detail))
